@@ -45,6 +45,9 @@ pub fn judge_value(ctx: &Ctx, case: &Value) -> Result<(), Fail> {
         let c: props::frontends::PySeq = serde_json::from_value(c.clone()).map_err(bad)?;
         return props::frontends::replay_py(ctx, &c);
     }
+    if let Some(v) = case.get("tall") {
+        return props::tree::replay_tall(ctx, v);
+    }
     if let Some(v) = case.get("c14_long_lived") {
         return props::lib_level::replay_c14_long_lived(ctx, v);
     }
